@@ -64,33 +64,4 @@ def UniqInv (c : Coll) : Prop :=
     (c.docs.filter (fun p => covers ix p.2)).Pairwise
       (fun a b => keyEq (keyVals ix a.2) (keyVals ix b.2) = false)
 
-/-! ### the domain of the step theorem (`Props.C06.step_uniq_inv_partial`)
-
-`_apply_update` skips `_ensure_uniques` when the edited document is Python-`==` to the one it
-replaces ("not modified": a change of numeric type `1 → 1.0 → True`, of key order, …) but stores
-the edited document all the same.  Three hypotheses keep that branch harmless; each names what it
-excludes. -/
-
-/-- `KeysDistinct` in both orientations.  Excludes: two store entries whose keys are `==` in
-    either direction (`==` as modelled is not symmetric on association lists with repeated
-    names, which no Python dict can be).  Follows from `KeysDistinct c` when every store key is
-    `SymmVal` (`Proofs.C06Lemmas.keysDistinctSym_of`), e.g. for scalar `_id`s. -/
-def KeysDistinctSym (c : Coll) : Prop :=
-  c.docs.Pairwise (fun a b => pyEq a.1 b.1 = false ∧ pyEq b.1 a.1 = false)
-
-/-- every stored document is hereditarily well-formed (`wfVal`: no repeated field name at any
-    depth — what every value built from Python dicts and lists satisfies).  Excludes: a written
-    value such as `{x: 1, x: 1}`, which is `==` to `{x: 1, y: 2}` in the model. -/
-def WfDocs (c : Coll) : Prop := ∀ p ∈ c.docs, wfVal p.2 = true
-
-/-- the partial filter of every unique index does not tell a well-formed document from one it is
-    `==` to.  Excludes the known finding `unchanged-branch-skips-check`: with
-    `partialFilterExpression: {t: {$type: "double"}}`, `{$set: {t: 1.0}}` on `t: 1` moves a
-    document into the index without any uniqueness check.  Holds trivially when no unique index
-    is partial. -/
-def PfStable (c : Coll) : Prop :=
-  ∀ ix ∈ c.indexes, ix.unique = true → ∀ f, ix.partialFilter = some f →
-    ∀ d d', wfVal d' = true → pyEq d' d = true →
-      filterApplies f d' = .ok true → filterApplies f d = .ok true
-
 end MongoModel.Spec
